@@ -3,6 +3,12 @@
 
 using ASAM::CMP::swapEndian;
 
+bool TECMP::CaptureModulePayload::isValid() const
+{
+    // All fields are read from the fixed size status header
+    return Payload::isValid() && payloadData.size() >= sizeof(Header);
+}
+
 uint8_t TECMP::CaptureModulePayload::getVendorId() const
 {
     return getHeader()->getVendorId();
